@@ -15,6 +15,10 @@ CLAIMS = {
              "TLA+ -- is valid UTF-8, also after a panicked step; that a panic occurs exactly when a byte-level is_char_boundary "
              "formulation says the index/range is bad; that split_off partitions exactly; that C strings end in exactly one NUL; that "
              "strict decoding succeeds iff lossy decoding introduces no replacement character; `-coverage 1` shows no action dead. "
+             "A second TLC run (MC_StrBytes) checks that bump-scope's byte-level algorithms, transcribed in StrBytes.tla (insert_bytes, "
+             "remove, pop, retain with its SetLenOnDrop guard under a panicking predicate, Drain::drop, replace_range, "
+             "extend_from_within, the four cases of split_off, into_cstr), produce exactly the UTF-8 encoding of what the "
+             "character-level operators say, for every string of <= 3 characters and every boundary argument. "
              "The same specification emits behaviours (every operation instance from every short string, every decoding/formatting "
              "constructor instance, exhaustive two-operation paths over a small alphabet in the thorough tier, seeded random walks); "
              "harness/strs executes them on BumpBox<str>, FixedBumpString, BumpString, MutBumpString in four bump configurations "
@@ -32,7 +36,7 @@ CLAIMS = {
              "unambiguous replacement count. Contents after a panicking retain predicate or a leaked drain are only required to be "
              "valid UTF-8 (std's exact result is compared as model drift). Not covered: allocation failure (C07), Extend/Add/From "
              "impls, serde, strings longer than the bounds (e.g. chunk-crossing growth of large strings belongs to C13/C15).",
-        technique="TLA+ spec (StrOps.tla/Str.tla) model-checked with TLC + TLC-generated behaviours replayed on the real string types and "
+        technique="TLA+ spec (StrOps.tla/Str.tla, byte-level refinement StrBytes.tla) model-checked with TLC + TLC-generated behaviours replayed on the real string types and "
                   "on std String + TLC evaluation (StrObs.tla) of the contract on every recorded step",
         engine="strs"),
 }
